@@ -428,6 +428,18 @@ def main():
         obligations += lemma_count
         discharged += lemma_ok
 
+    # ---- syntactic side conditions for code behind macros (C18)
+    syn_problems = []
+    if pm.get("syntactic") == "serde":
+        import serde_syntax
+        try:
+            syn_problems = serde_syntax.check(repo_src)
+        except Exception as e:
+            undecided.append("serde syntactic check could not run: %s" % e)
+        for sp in syn_problems:
+            lost_fail.append({"obligation": "syntactic :: serde :: %s" % sp[:80], "fn": "serde derive / view serialisers", "msg": "assumed serialised form no longer justified",
+                              "clause": sp, "origin": None, "rendered": sp})
+
     # ---- bounded Kani stand-ins
     kani_info = None
     fams = pm.get("kani", {}).get(tier, pm.get("kani", {}).get("quick", [])) if pm.get("kani") else []
@@ -444,6 +456,7 @@ def main():
     # ---- known findings
     out_lines = []
     real = []
+    known_hits = []
     for v in violations:
         hit = None
         for k in known:
@@ -451,6 +464,7 @@ def main():
                 hit = k
                 break
         if hit:
+            known_hits.append(v["obligation"])
             txt = re.sub(r"^property=\S+\s*", "", hit["text"][len("known:"):].strip())
             out_lines.append("KNOWN-FINDING: property=%s %s" % (pid, txt))
         else:
@@ -488,7 +502,10 @@ def main():
     wall = time.time() - t0
     level = pm.get("level", "proof")
     trusted = propmap.get("trusted_base_common", []) + pm.get("trusted_base", [])
+    # obligations listed as known findings are reported separately and are not part of the claim
+    obligations -= len(set(known_hits))
     cov = {
+        "known_findings_hit": sorted(set(known_hits)),
         "obligations": obligations,
         "discharged": discharged,
         "checker_cmd": vr.cmd or "verus (not run: %s)" % vr.undecided_reason,
